@@ -400,7 +400,8 @@ pub fn op_table() -> Vec<(&'static str, Vec<Vec<i64>>)> {
         ("set_char_mirror", v(&[&[0, 1, 1, 1], &[1, 0, 0, 4]])),
         ("swap_char", v(&[&[0, 0, 0, 7, 4], &[1, 0, 0, 1, 1], &[0, 2, 2, 2, 2], &[0, 0, 0, 8, 0]])),
         ("paste", v(&[&[0, 1, 1, 2, 2], &[1, -1, -1, 3, 2], &[2, 6, 3, 4, 4]])),
-        ("resize_buffer", v(&[&[0, 10, 6], &[0, 4, 3], &[1, 10, 6], &[1, 4, 3], &[1, 8, 5], &[0, 1, 1], &[1, 1, 1]])),
+        // (sizes shared with set_layer_size and with the seed documents: an operation that compares two sizes needs them to coincide)
+        ("resize_buffer", v(&[&[0, 10, 6], &[0, 4, 3], &[1, 10, 6], &[1, 4, 3], &[1, 8, 5], &[0, 1, 1], &[1, 1, 1], &[0, 8, 5], &[0, 6, 4], &[1, 6, 4]])),
         ("center_line", v(&[&[0, 1], &[1, 0], &[2, 4]])),
         ("justify_line_left", v(&[&[0, 1], &[1, 0], &[2, 4]])),
         ("justify_line_right", v(&[&[0, 1], &[1, 0], &[2, 4]])),
@@ -429,7 +430,7 @@ pub fn op_table() -> Vec<(&'static str, Vec<Vec<i64>>)> {
         ("merge_layer_down", v(&[&[0], &[1], &[2], &[3]])),
         ("toggle_layer_visibility", v(&[&[0], &[1], &[2]])),
         ("move_layer", v(&[&[0, 1, 1], &[1, -2, 0], &[1, 0, 0], &[2, 7, 4]])),
-        ("set_layer_size", v(&[&[0, 6, 4], &[0, 10, 7], &[1, 2, 2], &[1, 8, 5], &[2, 1, 1], &[0, 8, 5], &[1, 0, 0]])),
+        ("set_layer_size", v(&[&[0, 6, 4], &[0, 10, 7], &[1, 2, 2], &[1, 8, 5], &[2, 1, 1], &[0, 8, 5], &[1, 0, 0], &[0, 4, 3], &[0, 10, 6], &[1, 4, 3]])),
         ("stamp_layer_down", v(&[&[1], &[2], &[0]])),
         ("rotate_layer", v(&[&[0], &[1], &[2]])),
         ("make_layer_transparent", v(&[&[0], &[1], &[2]])),
